@@ -15,6 +15,7 @@ import (
 	"bytes"
 	"context"
 	"errors"
+	"fmt"
 	"io"
 	"mime/multipart"
 	"strings"
@@ -34,6 +35,7 @@ type h20BodyT struct {
 	parts   []h20Part
 	cutPart int // the body breaks in this part; -1: complete body
 	cutAt   int // at this offset of the part's content; -1: inside the part's header
+	inLine  bool // the stream ENDS (clean EOF) right after the boundary token that introduces cutPart, before the end of that line
 	next    int
 	open    []h20OpenPart
 	cutHit  bool
@@ -51,6 +53,11 @@ func H20NextPart(mr *multipart.Reader) (*multipart.Part, error) {
 	b := h20Body
 	if b.next >= len(b.parts) {
 		return nil, io.EOF
+	}
+	if b.next == b.cutPart && b.inLine {
+		// what mime/multipart does when the boundary line is incomplete at a clean end of the stream
+		b.cutHit = true
+		return nil, fmt.Errorf("multipart: NextPart: %w", io.EOF)
 	}
 	if b.next == b.cutPart && b.cutAt < 0 {
 		b.cutHit = true
@@ -122,6 +129,7 @@ func h20Reader(b *h20BodyT) *multipart.Reader {
 	w := multipart.NewWriter(&buf)
 	w.SetBoundary("h20boundary")
 	cutOff := -1
+	cleanEOF := false
 	for k, p := range b.parts {
 		hdrStart := buf.Len()
 		var pw io.Writer
@@ -130,7 +138,14 @@ func h20Reader(b *h20BodyT) *multipart.Reader {
 		} else {
 			pw, _ = w.CreateFormField(p.form)
 		}
-		if k == b.cutPart {
+		if k == b.cutPart && b.inLine {
+			// keep the boundary token, drop the rest of its line
+			cutOff = hdrStart + len("\r\n--h20boundary")
+			if k == 0 {
+				cutOff = hdrStart + len("--h20boundary")
+			}
+			cleanEOF = true
+		} else if k == b.cutPart {
 			if b.cutAt < 0 {
 				// after the boundary line, a few bytes into the part's header
 				cutOff = hdrStart + len("\r\n--h20boundary\r\n") + 10
@@ -147,6 +162,10 @@ func h20Reader(b *h20BodyT) *multipart.Reader {
 		pw.Write(p.content)
 	}
 	w.Close()
+	if cutOff >= 0 && cleanEOF {
+		b.cutHit = true // the stream is short from the start
+		return multipart.NewReader(bytes.NewReader(buf.Bytes()[:cutOff]), "h20boundary")
+	}
 	if cutOff >= 0 {
 		return multipart.NewReader(&h20BrokenReader{data: buf.Bytes()[:cutOff], b: b}, "h20boundary")
 	}
@@ -352,7 +371,7 @@ func h20FileStored(f *h20FS, name string) ([]byte, bool) {
 // fault of the given kind at a solver-chosen position.
 func H20Upload() {
 	shape := vndParam("shape")
-	kind := vndParam("fault") // 0 none, 1 database, 2 create, 3 write, 4 close, 5 body cut in content, 6 body cut in a part's header
+	kind := vndParam("fault") // 0 none, 1 database, 2 create, 3 write, 4 close, 5 body breaks in content, 6 in a part header, 7 clean end inside a boundary line
 	e := h20Setup()
 	baseID := e.h20Baseline()
 	baseRecords := len(e.st.Records)
@@ -386,6 +405,10 @@ func H20Upload() {
 	case 6:
 		body.cutPart = vndInt("cutPart", 0, len(parts)-1)
 		body.cutAt = -1
+	case 7:
+		// the stream ends cleanly inside the boundary line that would introduce a further part
+		body.cutPart = vndInt("cutPart", 1, len(parts)-1)
+		body.inLine = true
 	}
 	e.st.Ops = 0
 
